@@ -217,10 +217,21 @@ def createNextState (env : Env) (s : State) (txs : List Tx) (rel : Relevant) (ti
                           txs := State.insertTx st1.txs tx })
     { s with coins := coins1 } txs
 
-/-- the header used as `last_header`: `history[height-1]`, else (genesis) the header of the current
-    state sealed without an action — passed in, because it contains Merkle roots. -/
-def lastHeaderOf (s : State) (genesisFallback : Header) : Header :=
-  (s.history.get (s.height - 1)).getD genesisFallback
+/-- the stand-in shown to covenants in the first block of a chain, which has no previous header (since the `fix:` for
+    finding F25): only what is fixed for the whole block — network, height, fee multiplier, DOSC speed; every root and
+    the fee pool are zero.  (Before, it was the header of the block sealed as it stood, which changes with every
+    transaction applied.) -/
+def genesisStandIn (s : State) : Header :=
+  { network := s.network, previous := zeroHash, height := s.height, historyHash := zeroHash, coinsHash := zeroHash,
+    transactionsHash := zeroHash, feePool := 0, feeMultiplier := s.feeMultiplier, doscSpeed := s.doscSpeed,
+    poolsHash := zeroHash, stakesHash := zeroHash }
+
+/-- the header used as `last_header`: `history[height-1]`, else (first block) the stand-in.  The second argument is what
+    the old code used in that case (the header of the current state sealed without an action, passed in because it
+    contains Merkle roots); it is no longer looked at and is kept only so that the signatures of `applyBatch` and of the
+    theorems about it stay as they were. -/
+def lastHeaderOf (s : State) (_genesisFallback : Header) : Header :=
+  (s.history.get (s.height - 1)).getD (genesisStandIn s)
 
 /-- `apply_tx_batch_impl` -/
 def applyBatch (env : Env) (s : State) (txs : List Tx) (genesisFallback : Header) : Outcome State :=
